@@ -363,7 +363,17 @@ func c07Prop(t *rapid.T) {
 			}
 			// some operations fail half-way (a later retry must still respect ownership)
 			if rapid.IntRange(0, 5).Draw(t, "faulted") == 0 {
-				op.Fault = world.Fault{Kind: rapid.SampledFrom([]string{"kube", "wait"}).Draw(t, "faultKind"), K: rapid.IntRange(0, 10).Draw(t, "faultK")}
+				op.Fault = world.Fault{Kind: rapid.SampledFrom([]string{"kube", "wait"}).Draw(t, "faultKind"), K: rapid.IntRange(0, 10).Draw(t, "faultK"), Code: rapid.SampledFrom([]int{500, 500, 403, 409}).Draw(t, "faultCode")}
+			} else if rapid.IntRange(0, 3).Draw(t, "ownershipReadRejected") == 0 {
+				// the read that the ownership check makes of an object that exists and is not the release's is itself
+				// rejected (403: may create, may not read; 500): not knowing is no licence to go on
+				for _, r := range op.Chart.Resources {
+					if live := w.Cluster.Get(r.Path()); live != nil && !ownedByRelease(live, "r", "default") {
+						op.Fault = world.Fault{Kind: "kubematch", Verb: "GET", Path: r.Path(), Code: rapid.SampledFrom([]int{403, 500}).Draw(t, "readRejectedWith")}
+						lbl["ownership-read-rejected"] = true
+						break
+					}
+				}
 			}
 		}
 		// a failed upgrade is often simply retried with the same chart
